@@ -79,6 +79,9 @@ class HandoverServer(threading.Thread):
                         list(ndef.message_decoder(request, 'strict', {}))
                     except ndef.DecodeError:
                         continue  # need more data
+                    except UnicodeError as error:
+                        log.error(repr(error))
+                        return  # this will never be an ndef message
 
                     response = self._process_request_data(request)
 
